@@ -41,6 +41,12 @@ type server struct {
 }
 
 func newServer(p *rt.Package, withHook bool) *server {
+	return newServerSel(p, func(string) bool { return withHook }, nil)
+}
+
+// newServerSel registers the services selected by only (nil = all); hookFor says which registrations pass an
+// error-handler option. Registrations of one process may use different options.
+func newServerSel(p *rt.Package, hookFor func(service string) bool, only map[string]bool) *server {
 	s := &server{mux: http.NewServeMux()}
 	h := func(ctx context.Context, service, method string, req proto.Message) (proto.Message, error) {
 		s.mu.Lock()
@@ -56,21 +62,22 @@ func newServer(p *rt.Package, withHook bool) *server {
 		}
 		return r(service, method, req)
 	}
-	var eh rt.ErrorHook
-	if withHook {
-		eh = func(w http.ResponseWriter, r *http.Request, err error) proto.Message {
-			s.mu.Lock()
-			hk := s.hook
-			s.mu.Unlock()
-			if hk == nil {
-				return nil
-			}
-			return hk(w, r, err)
+	hookFn := func(w http.ResponseWriter, r *http.Request, err error) proto.Message {
+		s.mu.Lock()
+		hk := s.hook
+		s.mu.Unlock()
+		if hk == nil {
+			return nil
 		}
+		return hk(w, r, err)
 	}
 	for _, svc := range p.Services {
-		if svc.Register == nil {
+		if svc.Register == nil || (only != nil && !only[svc.Name]) {
 			continue
+		}
+		var eh rt.ErrorHook
+		if hookFor(svc.Name) {
+			eh = hookFn
 		}
 		func() {
 			defer func() {
